@@ -46,6 +46,61 @@ def run(chk: Check, proj: Project) -> None:
     from .C17 import s5_accessors
 
     s5_accessors(chk, proj, ["CONTEXT_BEHAVIOR"], rule="S8")
+    s10_mode_source(chk, proj, w)
+
+
+def s10_mode_source(chk: Check, proj: Project, w) -> None:
+    chk.rule("S10", "one source of truth for the mode: every comparison against a ContextBehavior member on a render path reads `<component's registry>.settings.context_behavior` (a registry may override the project-wide setting); the dynamic component forwards the context ITS isolation gate produced")
+    n = 0
+    for m, q, f in proj.all_funcs():
+        if m.name.endswith((".app_settings", ".component_registry")):
+            continue
+        for cmpn in [x for x in body_walk(f) if isinstance(x, ast.Compare) and len(x.ops) == 1]:
+            sides = [cmpn.left, cmpn.comparators[0]]
+            member = [e for e in sides if isinstance(e, ast.Attribute) and norm(e.value) == "ContextBehavior"]
+            if not member:
+                continue
+            other = sides[1] if sides[0] is member[0] else sides[0]
+            n += 1
+            chk.analysed(f"{m.name}:{q}")
+            src = other
+            if isinstance(other, ast.Attribute) and isinstance(other.value, ast.Name):
+                d = [v for _s, v in assignments(f, other.value.id) if v is not None]
+                outer = enclosing_func(f)
+                while not d and outer is not None:
+                    d = [v for _s, v in assignments(outer, other.value.id) if v is not None]
+                    outer = enclosing_func(outer)
+                if len(d) == 1:
+                    src = ast.Attribute(value=d[0], attr=other.attr, ctx=ast.Load())
+            elif isinstance(other, ast.Name):
+                d = [v for _s, v in assignments(f, other.id) if v is not None]
+                if len(d) == 1:
+                    src = d[0]
+            t = norm(src)
+            ok = t.endswith(".registry.settings.context_behavior") or t.endswith("registry.settings.context_behavior")
+            key = f"{m.name.replace('django_components.', '')}:{q}:mode-from-registry:{norm(member[0])}"
+            if ok:
+                chk.holds("S10", key, m.loc(cmpn), f"compares `{t}`")
+            elif "app_settings" in t or "CONTEXT_BEHAVIOR" in t:
+                chk.violated("S10", key, m.loc(cmpn), f"`{short(cmpn)}` reads the project-wide setting instead of the component's registry settings: with a registry whose context_behavior differs from the global one the component template is scoped one way and its fills the other")
+            else:
+                chk.undecided("S10", key, m.loc(cmpn), f"source of the compared mode `{t}` not recognised")
+    chk.floor("S10", n, 4)
+    gm, gf = proj.func("components.dynamic", "DynamicComponent.get_context_data")
+    om, of = proj.func("components.dynamic", "DynamicComponent.on_render_before")
+    rc = [c for c in calls(of, "render") if isinstance(c.func, ast.Attribute) and kwarg(c, "context") is not None]
+    v = kwarg(rc[0], "context") if rc else None
+    val = v
+    if isinstance(v, ast.Subscript) and isinstance(v.slice, ast.Constant):
+        for d in [x for x in ast.walk(gf) if isinstance(x, ast.Dict)]:
+            for k, vv in zip(d.keys, d.values):
+                if isinstance(k, ast.Constant) and k.value == v.slice.value:
+                    val = vv
+    txt = norm(val) if val is not None else ""
+    ok = "self.input.context" in txt and "outer_context" not in txt
+    chk.ob("S10", "components.dynamic:forwarded-context-is-own-input", gm.loc(val) if val is not None and hasattr(val, "lineno") else om.loc(of), ok if val is not None else None,
+           "the inner component is rendered with (a snapshot of) the dynamic component's own input context, i.e. what the isolation gate produced" if ok else
+           f"the inner component is rendered with `{txt}`: `outer_context` is the FULL context of the tag, so under isolation (isolated mode / `only`) the target's template sees variables that were never passed")
 
 
 def s7(chk: Check, proj: Project, w) -> None:
